@@ -32,9 +32,11 @@ Definition kind_eqb (a b : kind) : bool :=
    groups: a_name = group name number, a_members = "Properties"                                             *)
 Record arec := mkrec { a_id : nat; a_kind : kind; a_name : nat; a_props : list (nat * nat); a_members : list nat }.
 
-(* stale: holes that still list (in _children) a data child removed through Workspace.remove_entity *)
-Record astate := mkst { st : store; recs : list arec; objids : list nat; stale : list nat }.
-Definition init : astate := mkst [] [] [] [].
+(* stale:   holes that still list (in _children) a data child removed through Workspace.remove_entity
+   stalepg: holes that still list a property group removed through the workspace (also by the cascade of
+            PropertyGroup.remove_properties); both are forgotten at re-open *)
+Record astate := mkst { st : store; recs : list arec; objids : list nat; stale : list nat; stalepg : list nat }.
+Definition init : astate := mkst [] [] [] [] [].
 
 Inductive ares := AOk (s : astate) | ASoft (e : err) (s : astate) | AHard (e : err).
 
@@ -61,8 +63,9 @@ Definition set_props (p : list (nat * nat)) (r : arec) := mkrec (a_id r) (a_kind
 Definition set_members (m : list nat) (r : arec) := mkrec (a_id r) (a_kind r) (a_name r) (a_props r) m.
 Definition set_name (n : nat) (r : arec) := mkrec (a_id r) (a_kind r) n (a_props r) (a_members r).
 
-Definition with_st (s : astate) (x : store) := mkst x (recs s) (objids s) (stale s).
-Definition with_recs (s : astate) (x : list arec) := mkst (st s) x (objids s) (stale s).
+Definition with_st (s : astate) (x : store) := mkst x (recs s) (objids s) (stale s) (stalepg s).
+Definition with_recs (s : astate) (x : list arec) := mkst (st s) x (objids s) (stale s) (stalepg s).
+Definition mark_pg (s : astate) (h : nat) := mkst (st s) (recs s) (objids s) (stale s) (h :: stalepg s).
 
 Definition ids_val (l : list nat) : list val := map (fun i => Some (Z.of_nat i)) l.
 Definition val_id (v : val) : nat := match v with Some z => Z.to_nat z | None => 0 end.
@@ -136,7 +139,7 @@ Definition remove_pg_entity (s : astate) (h pg : nat) : res astate :=
   let pgs' := remove_first pg (pgs_of s h) in
   match lput s (Put L_PG h 0 (ids_val pgs')) with
   | Err e => Err e
-  | Ok s1 => Ok (with_recs s1 (del_rec pg (recs s1)))
+  | Ok s1 => Ok (mark_pg (with_recs s1 (del_rec pg (recs s1))) h)
   end.
 
 (* without the depth cascade of ConcatenatedPropertyGroup.remove_properties *)
@@ -254,7 +257,7 @@ Definition api_step (s : astate) (op : aop) : ares :=
   | AddHole h surv =>
       if negb (fresh s h) then AHard Unsupported else
       let s1 := mkst (st s) (recs s ++ [mkrec h KHole h [] []])
-                     (if memb h (objids s) then objids s else objids s ++ [h]) (stale s) in
+                     (if memb h (objids s) then objids s else objids s ++ [h]) (stale s) (stalepg s) in
       soft_or_hard s
         (match lput s1 (match surv with Some vs => Put L_SURV h 0 vs | None => Del L_SURV h 0 end) with
          | Err e => Err e
@@ -349,10 +352,15 @@ Definition api_step (s : astate) (op : aop) : ares :=
       if negb (live_hole s h) then AHard Unsupported else
       match rm_data s h d with
       | Err e => AHard e
-      | Ok s1 => AOk (if via_ws then mkst (st s1) (recs s1) (objids s1) (h :: stale s1) else s1)
+      | Ok s1 => AOk (if via_ws then mkst (st s1) (recs s1) (objids s1) (h :: stale s1) (stalepg s1) else s1)
       end
-  | RemovePG h pg _ =>
-      if negb (live_hole s h) then AHard Unsupported else soft_or_hard s (rm_pg s h pg)
+  | RemovePG h pg via_ws =>
+      if negb (live_hole s h) then AHard Unsupported else
+      match rm_pg s h pg with
+      | Err e => AHard e
+      | Ok s1 => AOk (if via_ws then mark_pg s1 h
+                      else mkst (st s1) (recs s1) (objids s1) (stale s1) (stalepg s))   (* hole._children.remove(group) *)
+      end
   | RemoveHole h _ =>
       if negb (live_hole s h) then AHard Unsupported else
       if memb h (stale s) then AHard KeyError else                               (* a child removed through the workspace is met again *)
@@ -361,7 +369,12 @@ Definition api_step (s : astate) (op : aop) : ares :=
       | Ok s1 =>
           match rm_datas s1 h (nodup_nat (map (fun p : nat * nat => snd p) (keys_of s1 h))) with
           | Err e => AHard e
-          | Ok s2 => AOk (mkst (st s2) (del_rec h (recs s2)) (remove_first h (objids s2)) (stale s2))
+          | Ok s2 =>
+              (* a group that is still listed among the hole's children is removed once more: its row is rewritten *)
+              match (if memb h (stalepg s2) then lput s2 (Put L_PG h 0 (ids_val (pgs_of s2 h))) else Ok s2) with
+              | Err e => AHard e
+              | Ok s3 => AOk (mkst (st s3) (del_rec h (recs s3)) (remove_first h (objids s3)) (stale s3) (stalepg s3))
+              end
           end
       end
   | Reopen =>
@@ -376,7 +389,7 @@ Definition api_step (s : astate) (op : aop) : ares :=
                                     end) (a_props r) (a_props r)) r
         | _ => r
         end in
-      AOk (mkst (st s) (map (fix_hole (recs s)) (recs s)) (objids s) [])
+      AOk (mkst (st s) (map (fix_hole (recs s)) (recs s)) (objids s) [] [])
   end.
 
 (* ---------------- comparison with an observed run ---------------- *)
